@@ -2,6 +2,7 @@ package h
 
 import (
 	"fmt"
+	"os"
 	"strconv"
 	"strings"
 	"time"
@@ -263,6 +264,8 @@ func runBisyncSim(r *Run, prop string, cfg PipeCfg, st *Stream, maxCrashes int, 
 	forced := false
 	idleRestarts := 0
 	resyncs := 0
+	failovers := 0
+	allowFailover := os.Getenv("SIM_C14_NOFAILOVER") != "1"
 	for r.BeginStep() {
 		r.Settle()
 		ps.absorb()
@@ -355,6 +358,27 @@ func runBisyncSim(r *Run, prop string, cfg PipeCfg, st *Stream, maxCrashes int, 
 					o.root = o.units[j].endOff
 					ps.plantRootCheckpoint(o.root)
 					r.Logf("FULL RESYNC: root checkpoint moved to %d (end of unit %d)", o.root, j)
+					ps.startIncarnation()
+				}})
+			}
+			if ph == 1 && failovers < 1 && allowFailover {
+				// the source fails over and answers the reconnect with +CONTINUE: one offset space, a new replication id, the
+				// previous one second. The link is stopped; the next start moves the bookkeeping to the new id (the real
+				// UpdateCheckpoint, as every process start runs it) and goes on where the old id had got to - the recovery
+				// records written so far carry the old id, the ones to come the new one
+				fw := 3
+				if ps.cfg.FailoverBias > 0 {
+					fw = ps.cfg.FailoverBias
+				}
+				acts = append(acts, pipeAction{"failover-continue", fw, func() {
+					failovers++
+					crashes++
+					r.W.Fault("source_failover_continue")
+					ps.shutdown()
+					o.observe()
+					ps.prevID, ps.runID = ps.runID, "9e8d7c6b5a4f3e2d1c0b9a8f7e6d5c4b3a2f1e0d"
+					ps.forcePath = true
+					r.Logf("SOURCE FAILOVER (+CONTINUE): replication id %s -> %s", ps.prevID[:6], ps.runID[:6])
 					ps.startIncarnation()
 				}})
 			}
